@@ -50,7 +50,7 @@ pub ghost struct ExecEv {
     pub ah_after: u8,             // AH afterwards (selects the interrupt service)
     pub log_len: int,             // messages printed before it
     pub prompts_before: int,      // prompt sessions before it
-    pub ok_line: bool, pub ok_first: bool, pub ok_after: bool, pub ok_jmp: bool, pub ok_next: bool, pub ok_repeat: bool,
+    pub ok_line: bool, pub ok_first: bool, pub ok_after: bool, pub ok_after_int: bool, pub ok_jmp: bool, pub ok_next: bool, pub ok_repeat: bool,
     pub ok_print: bool, pub ok_int: bool, pub ok_prompts: bool, pub ok_data: bool,
 }
 pub ghost struct DataEv { pub ctr_in: usize, pub ctr_out: usize, pub line: Seq<char>, pub ok: bool, pub okay: bool }
@@ -92,14 +92,6 @@ pub open spec fn start_key(p: PreView) -> String { choose|s: String| #[trigger] 
 pub open spec fn ah_ok(which: u8, ah: u8) -> bool {
     (which == 0x10 && (ah == 0xA || ah == 0x13)) || (which == 0x21 && (ah == 1 || ah == 2 || ah == 0xA))
 }
-/// after these answers the program goes on; after anything else (HLT, a reported error, INT 0, an unsupported service) it stops
-pub open spec fn continues(e: ExecEv) -> bool {
-    match e.res {
-        Some(State::NEXT) | Some(State::JMP(_)) | Some(State::REPEAT) | Some(State::PRINT) => true,
-        Some(State::INT(n)) => n == 3 || ah_ok(n, e.ah_after),
-        _ => false,
-    }
-}
 pub open spec fn b2i(b: bool) -> int { if b { 1 } else { 0 } }
 pub open spec fn is_int3(e: ExecEv) -> bool { e.res == Some(State::INT(3)) }
 // ---- the monitors (t: the trace BEFORE the event)
@@ -107,8 +99,10 @@ pub open spec fn is_int3(e: ExecEv) -> bool { e.res == Some(State::INT(3)) }
 pub open spec fn m_line(t: &Trace, cur: int, line: Seq<char>) -> bool { 0 <= cur <= t.pre.code.len() && line == code_hlt(t.pre)[cur] }
 /// C08 / C12: the first instruction is the one the code label `start` denotes, and runs with DS = 0
 pub open spec fn m_first(t: &Trace, cur: int, ds: u16) -> bool { t.execs.len() == 0 ==> cur == t.pre.lmap[start_key(t.pre)].map && ds == 0 }
-/// C08 / C18: nothing is executed after HLT, an error, INT 0 or an unsupported service
-pub open spec fn m_after(t: &Trace) -> bool { t.execs.len() > 0 ==> continues(t.execs.last()) }
+/// C08: nothing is executed after HLT (written, or the appended one when execution runs past the last instruction) or a reported error
+pub open spec fn m_after(t: &Trace) -> bool { t.execs.len() > 0 ==> t.execs.last().res != Some(State::HALT) && t.execs.last().res.is_some() }
+/// C18: nothing is executed after INT 0, an unknown interrupt or a service with an unsupported AH
+pub open spec fn m_after_int(t: &Trace) -> bool { t.execs.len() > 0 ==> (t.execs.last().res matches Some(State::INT(n)) ==> n == 3 || ah_ok(n, t.execs.last().ah_after)) }
 /// C08: a jump answer continues at its target
 pub open spec fn m_jmp(t: &Trace, cur: int) -> bool { t.execs.len() > 0 ==> (t.execs.last().res matches Some(State::JMP(n)) ==> cur == n) }
 /// C08: otherwise execution continues in order
@@ -303,7 +297,7 @@ impl Interpreter {
                 idx: current as int, line: line@, ds_before: old(vm).arch.ds, tf_before: (old(vm).arch.flag / 256) % 2 == 1, res: res_of(r),
                 ah_after: (final(vm).arch.ax / 256) as u8, log_len: old(log).entries.len() as int, prompts_before: old(tr).prompts.len() as int,
                 ok_line: m_line(old(tr), current as int, line@), ok_first: m_first(old(tr), current as int, old(vm).arch.ds),
-                ok_after: m_after(old(tr)), ok_jmp: m_jmp(old(tr), current as int), ok_next: m_next(old(tr), current as int),
+                ok_after: m_after(old(tr)), ok_after_int: m_after_int(old(tr)), ok_jmp: m_jmp(old(tr), current as int), ok_next: m_next(old(tr), current as int),
                 ok_repeat: m_repeat(old(tr), current as int), ok_print: m_print(old(tr), current as int), ok_int: m_int(old(tr), current as int),
                 ok_prompts: m_prompts(old(tr), current as int, (old(vm).arch.flag / 256) % 2 == 1, interpreted), ok_data: m_data(old(tr)) }),
             same_pre(final(tr), old(tr)), final(tr).datas == old(tr).datas, final(tr).code_prints == old(tr).code_prints,
@@ -456,6 +450,7 @@ pub proof fn lemma_least_undefined(rem: Seq<&(usize, String)>, cur: int, und: Se
 pub open spec fn p_line(t: &Trace) -> bool { forall|k: int| 0 <= k < t.execs.len() ==> (#[trigger] t.execs[k]).ok_line }
 pub open spec fn p_first(t: &Trace) -> bool { forall|k: int| 0 <= k < t.execs.len() ==> (#[trigger] t.execs[k]).ok_first }
 pub open spec fn p_after(t: &Trace) -> bool { forall|k: int| 0 <= k < t.execs.len() ==> (#[trigger] t.execs[k]).ok_after }
+pub open spec fn p_after_int(t: &Trace) -> bool { forall|k: int| 0 <= k < t.execs.len() ==> (#[trigger] t.execs[k]).ok_after_int }
 pub open spec fn p_jmp(t: &Trace) -> bool { forall|k: int| 0 <= k < t.execs.len() ==> (#[trigger] t.execs[k]).ok_jmp }
 pub open spec fn p_next(t: &Trace) -> bool { forall|k: int| 0 <= k < t.execs.len() ==> (#[trigger] t.execs[k]).ok_next }
 pub open spec fn p_repeat(t: &Trace) -> bool { forall|k: int| 0 <= k < t.execs.len() ==> (#[trigger] t.execs[k]).ok_repeat }
@@ -498,7 +493,8 @@ impl CMDDriver {
         // the run as a whole (also when it ends)
         p_line(final(verif_tr)), //# C08 run.executes_lines_of_the_program_plus_final_hlt
         p_first(final(verif_tr)), //# C08,C12 run.begins_at_start_with_ds_0
-        p_after(final(verif_tr)), //# C08,C18 run.nothing_after_hlt_error_or_unsupported_service
+        p_after(final(verif_tr)), //# C08 run.nothing_after_hlt_or_error
+        p_after_int(final(verif_tr)), //# C18 run.nothing_after_int_0_or_unsupported_service
         p_jmp(final(verif_tr)) && p_next(final(verif_tr)), //# C08 run.jump_and_next_followed
         p_repeat(final(verif_tr)), //# C07 run.repeat_reissues_the_same_line
         p_print(final(verif_tr)) && p_code_prints(final(verif_tr)), //# C17 run.print_lines_go_to_the_print_reader_once
@@ -543,7 +539,8 @@ impl CMDDriver {
             verif_tr.svcs.len() > 0 ==> verif_tr.svcs.last().at <= verif_tr.execs.len(), //# C18 loop.service_calls_in_order
             // what the loop owes the next instruction (facts about the last event and idx)
             m_first(verif_tr, idx as int, vm.arch.ds), //# C08,C12 loop.begins_at_start_with_ds_0
-            m_after(verif_tr), //# C08,C18 loop.stops_after_hlt_error_or_unsupported_service
+            m_after(verif_tr), //# C08 loop.stops_after_hlt_or_error
+            m_after_int(verif_tr), //# C18 loop.stops_after_int_0_or_unsupported_service
             m_jmp(verif_tr, idx as int), //# C08 loop.jump_continues_at_target
             m_next(verif_tr, idx as int), //# C08 loop.next_continues_at_following_line
             m_repeat(verif_tr, idx as int), //# C07 loop.repeat_reissues_the_same_line
@@ -554,7 +551,8 @@ impl CMDDriver {
             // the properties so far
             p_line(verif_tr), //# C08 loop.executes_lines_of_the_program_plus_final_hlt
             p_first(verif_tr), //# C08,C12 loop.first_instruction_ok_so_far
-            p_after(verif_tr), //# C08,C18 loop.stops_ok_so_far
+            p_after(verif_tr), //# C08 loop.stops_ok_so_far
+            p_after_int(verif_tr), //# C18 loop.stops_after_int_ok_so_far
             p_jmp(verif_tr) && p_next(verif_tr), //# C08 loop.jump_and_next_ok_so_far
             p_repeat(verif_tr), //# C07 loop.repeat_ok_so_far
             p_print(verif_tr), //# C17 loop.print_ok_so_far
